@@ -1094,6 +1094,10 @@ func GenRegionErrorResp(req *Request, e *errorpb.Error) (*Response, error) {
 		p = &kvrpcpb.GetHealthFeedbackResponse{
 			RegionError: e,
 		}
+	case CmdLockWaitInfo:
+		p = &kvrpcpb.GetLockWaitInfoResponse{
+			RegionError: e,
+		}
 	default:
 		return nil, errors.Errorf("invalid request type %v", req.Type)
 	}
